@@ -85,10 +85,24 @@ type zzvRcIn struct { // one bounded model (one TLC run) and its path cover
 	Name        string      `json:"name"`
 	Addrs       []string    `json:"addrs"`
 	Cap         int         `json:"cap"`
-	MaxAttempts int         `json:"max_attempts"`
-	InitialMs   int         `json:"initial_ms"`
-	Jitter      float64     `json:"jitter"`
-	Paths       []zzvRcPath `json:"paths"`
+	MaxAttempts int           `json:"max_attempts"`
+	Configs     []zzvRcDelays `json:"configs"` // real delay configurations whose delay saturates at index Cap; path i uses Configs[i % n]
+	Jitter      float64       `json:"jitter"`
+	Paths       []zzvRcPath   `json:"paths"`
+}
+
+// zzvRcDelays: InitialDelay, Multiplier, MaxDelay of a real Reconnector.  MaxDelay need not be
+// InitialDelay*Multiplier^n: the delay of the k-th consecutive retry is min(initial*multiplier^k, max).
+type zzvRcDelays struct {
+	InitialMs int     `json:"initial_ms"`
+	Mult      float64 `json:"mult"`
+	MaxMs     int     `json:"max_ms"`
+}
+
+// the configurations used when the caller does not name any (saturation index 2 resp. 3)
+var zzvRcDefaultDelays = map[int][]zzvRcDelays{
+	2: {{20, 2, 70}, {20, 3, 150}, {20, 1.5, 40}, {15, 4, 100}, {20, 2, 80}},
+	3: {{20, 2, 150}, {20, 1.5, 60}, {10, 3, 160}, {20, 2, 160}},
 }
 
 // ---- a real Reconnector under the control of the harness ---------------------------------------------------------
@@ -178,10 +192,20 @@ func zzvRcLadder(initial time.Duration, mult float64, max time.Duration, n int) 
 	return l
 }
 
-func zzvRcConfig(initialMs, capIdx, maxAttempts int, jitter float64) ReconnectConfig {
-	initial := time.Duration(initialMs) * time.Millisecond
-	return ReconnectConfig{InitialDelay: initial, MaxDelay: initial * time.Duration(1<<uint(capIdx)), Multiplier: 2.0,
-		MaxAttempts: maxAttempts, Jitter: jitter}
+func zzvRcConfig(d zzvRcDelays, maxAttempts int, jitter float64) ReconnectConfig {
+	return ReconnectConfig{InitialDelay: time.Duration(d.InitialMs) * time.Millisecond, MaxDelay: time.Duration(d.MaxMs) * time.Millisecond,
+		Multiplier: d.Mult, MaxAttempts: maxAttempts, Jitter: jitter}
+}
+
+// zzvRcSaturation: first index at which the statement's delay min(initial*mult^k, max) equals max
+func zzvRcSaturation(d zzvRcDelays) int {
+	l := zzvRcLadder(time.Duration(d.InitialMs)*time.Millisecond, d.Mult, time.Duration(d.MaxMs)*time.Millisecond, 40)
+	for i, x := range l {
+		if x == time.Duration(d.MaxMs)*time.Millisecond {
+			return i
+		}
+	}
+	return -1
 }
 
 func zzvRcNew(addrs []string, cfg ReconnectConfig, capIdx int) *zzvRcH {
@@ -284,12 +308,14 @@ type zzvRcReal struct {
 	Ex     map[string]bool `json:"ex"`
 	Att    map[string]int `json:"att"`
 	Idx    map[string]int `json:"idx"` // index of nextDelay on the ladder; -1 = not a ladder value
+	NdNs   map[string]int64 `json:"next_delay_ns"`
 	Gate   map[string]int `json:"gate"`
 	Infl   map[string]int `json:"infl"`
 }
 
 func (h *zzvRcH) project() zzvRcReal {
-	p := zzvRcReal{Ex: map[string]bool{}, Att: map[string]int{}, Idx: map[string]int{}, Gate: map[string]int{}, Infl: map[string]int{}}
+	p := zzvRcReal{Ex: map[string]bool{}, Att: map[string]int{}, Idx: map[string]int{}, Gate: map[string]int{}, Infl: map[string]int{},
+		NdNs: map[string]int64{}}
 	h.r.mu.Lock()
 	p.Paused, p.Closed = h.r.paused, h.r.closed
 	for _, a := range h.addrs {
@@ -298,6 +324,7 @@ func (h *zzvRcH) project() zzvRcReal {
 		p.Att[a], p.Idx[a] = 0, 0
 		if ok {
 			p.Att[a] = st.attempts
+			p.NdNs[a] = int64(st.nextDelay)
 			p.Idx[a] = -1
 			for i, d := range h.ladder {
 				if st.nextDelay == d {
@@ -341,8 +368,12 @@ var errZzvDiverged = errors.New("timing divergence")
 
 // zzvRcRunPath replays one path.  Returns nil (matched), a mismatch, or errZzvDiverged (a real timer fired earlier
 // than this path wanted - legal behaviour of the spec, but another path; the caller retries).
-func zzvRcRunPath(in *zzvRcIn, path *zzvRcPath, obs *zzvRcObs) (mm *zzvRcMismatch, err error) {
-	cfg := zzvRcConfig(in.InitialMs, in.Cap, in.MaxAttempts, in.Jitter)
+func zzvRcRunPath(in *zzvRcIn, pi int, path *zzvRcPath, obs *zzvRcObs) (mm *zzvRcMismatch, err error) {
+	dl := in.Configs[pi%len(in.Configs)]
+	if zzvRcSaturation(dl) != in.Cap {
+		return nil, fmt.Errorf("harness: delays %+v do not saturate at index %d", dl, in.Cap)
+	}
+	cfg := zzvRcConfig(dl, in.MaxAttempts, in.Jitter)
 	h := zzvRcNew(in.Addrs, cfg, in.Cap)
 	defer h.close()
 	steps := 0
@@ -395,7 +426,11 @@ func zzvRcRunPath(in *zzvRcIn, path *zzvRcPath, obs *zzvRcObs) (mm *zzvRcMismatc
 			}
 			e := h.blocked[a.A][want-1]
 			waited := e.at.Sub(h.armedAt[a.A])
-			delays = append(delays, seenDelay{a.D, waited})
+			nominal := h.ladder[len(h.ladder)-1]
+			if a.D < len(h.ladder) {
+				nominal = h.ladder[a.D]
+			}
+			delays = append(delays, seenDelay{a.D, time.Duration(1000 * float64(waited) / float64(nominal))}) // per mille of the nominal delay
 			if waited < h.lower(a.D) {
 				return fail("early-timer", si, st, fmt.Sprintf("timer armed with backoff index %d fired after %v, less than %v", a.D, waited, h.lower(a.D))), nil
 			}
@@ -479,15 +514,22 @@ func zzvRcRunPath(in *zzvRcIn, path *zzvRcPath, obs *zzvRcObs) (mm *zzvRcMismatc
 				return nil, fmt.Errorf("harness: lost a gate entry (step %d)", si)
 			}
 		}
-		// the backoff state by itself: after n attempts the next delay has index min(n, cap)
+		// the backoff state by itself: after k consecutive attempts (k restarts when the address is scheduled afresh,
+		// cancelled, reset or CONNECTED - the specification's counter) the delay the next timer will be armed with
+		// must be min(initial*multiplier^k, max)
 		for _, ad := range h.addrs {
 			if real.Ex[ad] {
-				want := real.Att[ad]
+				k := 0
+				if st.T.Ex[ad] {
+					k = st.T.Att[ad]
+				}
+				want := k
 				if want > in.Cap {
 					want = in.Cap
 				}
 				if real.Idx[ad] != want {
-					return fail("backoff-state", si, st, fmt.Sprintf("%s: after %d attempts the next delay has index %d", ad, real.Att[ad], real.Idx[ad])), nil
+					return fail("backoff-state", si, st, fmt.Sprintf("%s: after %d consecutive attempts the next delay is %v, must be min(%v*%v^%d, %v) = %v",
+						ad, k, time.Duration(real.NdNs[ad]), cfg.InitialDelay, cfg.Multiplier, k, cfg.MaxDelay, h.ladder[want])), nil
 				}
 			}
 		}
@@ -583,6 +625,11 @@ func TestZZVReconReplay(t *testing.T) {
 		st := &p.Steps[len(p.Steps)/2]
 		st.T.Paused = !st.T.Paused
 	}
+	for ri := range all.Runs {
+		if len(all.Runs[ri].Configs) == 0 {
+			all.Runs[ri].Configs = zzvRcDefaultDelays[all.Runs[ri].Cap]
+		}
+	}
 	par := zzvEnvInt("ZZV_PAR", 24)
 	retries := zzvEnvInt("ZZV_RETRIES", 6)
 	confirm := zzvEnvInt("ZZV_CONFIRM", 3)
@@ -617,7 +664,7 @@ func TestZZVReconReplay(t *testing.T) {
 				same := 0
 				ok := false
 				for try := 0; try < retries+confirm; try++ {
-					mm, err := zzvRcRunPath(in, path, obs)
+					mm, err := zzvRcRunPath(in, pi, path, obs)
 					if err == errZzvDiverged {
 						mu.Lock()
 						retried++
@@ -691,7 +738,7 @@ func TestZZVReconReplay(t *testing.T) {
 	dl := map[string]any{}
 	for d, ws := range obs.delays {
 		sort.Slice(ws, func(i, j int) bool { return ws[i] < ws[j] })
-		dl[fmt.Sprint(d)] = map[string]any{"n": len(ws), "min_ms": float64(ws[0]) / 1e6, "median_ms": float64(ws[len(ws)/2]) / 1e6}
+		dl[fmt.Sprint(d)] = map[string]any{"n": len(ws), "min_ratio": float64(ws[0]) / 1000, "median_ratio": float64(ws[len(ws)/2]) / 1000}
 	}
 	zzvEmit("summary", map[string]any{"paths": len(jobs), "steps": obs.steps, "mismatches": len(mism), "mismatch_kinds": seenKind,
 		"diverged": diverged, "retried": retried, "flaky": flaky, "flaky_kinds": flakyKinds, "infra": infra, "delays": dl})
@@ -804,7 +851,6 @@ func TestZZVReconTrace(t *testing.T) {
 	par := zzvEnvInt("ZZV_PAR", 16)
 	capIdx := zzvEnvInt("ZZV_CAP", 2)
 	maxAtt := zzvEnvInt("ZZV_MAXATT", 0)
-	initialMs := zzvEnvInt("ZZV_INITIAL_MS", 20)
 	addrs := []string{"a", "b"}
 	seed := zzvSeed()
 	logs := make([]*zzvRcLog, ntraces)
@@ -821,12 +867,14 @@ func TestZZVReconTrace(t *testing.T) {
 					return
 				}
 				rng := mrand.New(mrand.NewSource(seed*1000003 + int64(ti)))
-				cfg := zzvRcConfig(initialMs, capIdx, maxAtt, 0.2)
+				dls := zzvRcDefaultDelays[capIdx]
+				dl := dls[ti%len(dls)]
+				cfg := zzvRcConfig(dl, maxAtt, 0.2)
 				h := zzvRcNew(addrs, cfg, capIdx)
 				lg := &zzvRcLog{}
 				var direct []map[string]any
 				c := &zzvRcClock{h: h, pending: map[string]bool{}, idx: map[string]int{}, seen: map[string]int{}, gone: map[string]int{}}
-				lg.put("Reset", nil, zzvRcSt(h.project()), false)
+				lg.put("Reset", map[string]any{"delays": dl}, zzvRcSt(h.project()), false)
 				schedule := func(name, ad string, call func()) {
 					wasPaused := h.r.IsPaused()
 					idxBefore := h.project().Idx[ad]
@@ -1022,14 +1070,15 @@ func (d *zzvDeadTransport) Close() error                  { return nil }
 func TestZZVReconManager(t *testing.T) {
 	rounds := zzvEnvInt("ZZV_ROUNDS", 2)
 	k := zzvEnvInt("ZZV_K", 4)
-	initialMs := zzvEnvInt("ZZV_INITIAL_MS", 20)
 	capIdx := zzvEnvInt("ZZV_CAP", 3)
 	const realAddr = "dead.example:1"
 	var logs []*zzvRcLog
 	var direct []map[string]any
 	var gaps []map[string]any
 	for round := 0; round < rounds; round++ {
-		cfg := zzvRcConfig(initialMs, capIdx, 0, 0.2)
+		dls := zzvRcDefaultDelays[capIdx]
+		dl := dls[round%len(dls)]
+		cfg := zzvRcConfig(dl, 0, 0.2)
 		dt := &zzvDeadTransport{gate: make(chan chan error), quit: make(chan struct{})}
 		id, _ := identity.NewAgentID()
 		mc := DefaultManagerConfig(id, dt)
@@ -1058,7 +1107,7 @@ func TestZZVReconManager(t *testing.T) {
 			}
 		}
 		refused := errors.New("zzv: connection refused")
-		lg.put("Reset", nil, st(), false)
+		lg.put("Reset", map[string]any{"delays": dl}, st(), false)
 
 		// one reconnect attempt up to the point where the manager dials; returns the dial's verdict channel
 		begin := func(label string, idx int) chan error {
